@@ -113,6 +113,21 @@ pub fn real4(_: &impl T, a: u8) -> Uniq {
     Uniq::new(format!("real4({a})"))
 }
 
+/// a return type with a borrowed element and TWO owned ones: a single-use response is two single-use slots
+#[unimock(api=PMock)]
+pub trait P {
+    fn mt(&self, a: u8) -> (Uniq, &str, Uniq);
+}
+
+/// both owned components carry the tag
+pub fn take_triple(t: (Uniq, &str, Uniq)) -> String {
+    let (x, lent, y) = t;
+    assert_eq!(lent, "lent");
+    let (x, y) = (x.take(), y.take());
+    assert_eq!(x, y);
+    x
+}
+
 #[unimock(api=GMock)]
 pub trait G<X> {
     fn g(&self, a: u8) -> Val;
